@@ -313,7 +313,8 @@ class _VersionIndependentUnmarshaller:
         def unpack_newer() -> float:
             return float(self.fp.read(unpack("<i", self.fp.read(4))[0]))
 
-        get_float = unpack_pre_24 if self.magic_int <= 62061 else unpack_newer
+        # marshal.c reads a one-byte length for the text form in every version.
+        get_float = unpack_pre_24
 
         real = get_float()
         imag = get_float()
